@@ -416,8 +416,16 @@ func removeFromCollection(col ItemCollection, items ...Item) ItemCollection {
 		return col
 	}
 	for _, ob := range col {
+		if IsNil(ob) {
+			// nil entries are left alone
+			result = append(result, ob)
+			continue
+		}
 		found := false
 		for _, it := range items {
+			if IsNil(it) {
+				continue
+			}
 			if ob.GetID().Equals(it.GetID(), false) {
 				found = true
 				break
